@@ -313,7 +313,118 @@ def r_atomic():
     lib.write_gen("AtomicTables", "\n".join(out))
 
 
+FIELD_KINDS = ["pydantic.BaseModel", "pydantic_v2.BaseModel", "dataclasses.dataclass", "typing.TypedDict", "msgspec.Struct"]
+
+
+def parse_field_line(text):
+    """From a rendered class: the annotation and assigned value of member a ->
+    (hint is optional, NotRequired wrapper, effective default kind, hint text, value text)
+    effective default: none | ellipsis | None | value | factory"""
+    import ast
+    tree = ast.parse(text)
+    cls = next(n for n in ast.walk(tree) if isinstance(n, ast.ClassDef))
+    st = next(x for x in cls.body if isinstance(x, ast.AnnAssign) and x.target.id == "a")
+    ann = st.annotation
+    full_ann = ast.unparse(st.annotation)
+    field_call = None
+    if isinstance(ann, ast.Subscript) and ast.unparse(ann.value) == "Annotated":
+        elts = ann.slice.elts
+        ann = elts[0]
+        for e in elts[1:]:
+            if isinstance(e, ast.Call) and ast.unparse(e.func) in ("Field", "field", "Meta"):
+                field_call = e
+    notreq = False
+    if isinstance(ann, ast.Subscript) and ast.unparse(ann.value) == "NotRequired":
+        notreq = True
+        ann = ann.slice
+    hint = ast.unparse(ann)
+    opt = hint.startswith("Optional[") or hint.endswith("| None") or hint == "None"
+
+    def from_call(c):
+        if ast.unparse(c.func) == "Meta":
+            return None
+        for kw in c.keywords:
+            if kw.arg == "default_factory":
+                return "factory"
+            if kw.arg == "default":
+                return "None" if ast.unparse(kw.value) == "None" else ("ellipsis" if ast.unparse(kw.value) == "..." else "value")
+        if c.args:
+            a0 = ast.unparse(c.args[0])
+            return "ellipsis" if a0 == "..." else ("None" if a0 == "None" else "value")
+        return None
+
+    eff = "none"
+    if st.value is not None:
+        v = st.value
+        if isinstance(v, ast.Call) and ast.unparse(v.func) in ("Field", "field"):
+            eff = from_call(v) or "none"
+        else:
+            eff = "None" if ast.unparse(v) == "None" else "value"
+    elif field_call is not None:
+        eff = from_call(field_call) or "none"
+    return opt, notreq, eff, full_ann, (ast.unparse(st.value) if st.value is not None else "")
+
+
+def field_table():
+    """Every member-level flag combination rendered through the real field classes and class templates (T1)."""
+    import itertools
+    import sys as _sys
+    lib.ensure_repo_on_path()
+    import datamodel_code_generator as d
+    from datamodel_code_generator.format import PythonVersion
+    from datamodel_code_generator.model import get_data_model_types
+    from datamodel_code_generator.reference import Reference
+    from datamodel_code_generator.types import DataType
+
+    rows = []
+    for kind in FIELD_KINDS:
+        ms = get_data_model_types(d.DataModelType(kind), PythonVersion.PY_312)
+        C = getattr(_sys.modules[ms.field_model.__module__], "Constraints", None)
+        for req, dflt, nullable, thn, dtopt, sdn, ua, constr, udk in itertools.product(
+                [True, False], ["no", "none", "val"], [None, True, False], [False, True], [False, True], [False, True], [False, True], [False, True], [False, True]):
+            if constr and C is None:
+                continue
+            if udk and not kind.startswith("pydantic"):
+                continue
+            if ua and kind in ("dataclasses.dataclass", "typing.TypedDict"):
+                continue
+            kw = dict(name="a", data_type=DataType(type="int", is_optional=dtopt), required=req, nullable=nullable, type_has_null=thn,
+                      strip_default_none=sdn, use_annotated=ua, use_default_kwarg=udk)
+            if dflt != "no":
+                kw["has_default"] = True
+                kw["default"] = None if dflt == "none" else 1
+            if constr:
+                kw["constraints"] = C.parse_obj({"minimum": 1})
+            f = ms.field_model(**kw)
+            model = ms.data_model(reference=Reference(path="p", name="M", original_name="M"), fields=[f])
+            f.parent = model
+            text = model.render()
+            opt, notreq, eff, hint, val = parse_field_line(text)
+            rows.append(dict(kind=kind, req=req, dflt=dflt, nullable=nullable, thn=thn, dtopt=dtopt, sdn=sdn, ua=ua, constr=constr, udk=udk,
+                             opt_hint=opt, notreq=notreq, eff=eff, hint=hint, val=val))
+    return rows
+
+
+def field_key(r):
+    kn = FIELD_KINDS.index(r["kind"])
+    k = kn
+    k = k * 2 + int(r["req"])
+    k = k * 3 + {"no": 0, "none": 1, "val": 2}[r["dflt"]]
+    k = k * 3 + {None: 0, True: 1, False: 2}[r["nullable"]]
+    for f in ("thn", "dtopt", "sdn", "ua", "constr", "udk"):
+        k = k * 2 + int(r[f])
+    return k
+
+
+def r_field_table():
+    rows = field_table()
+    EFF = {"none": "ENone", "ellipsis": "EEllipsis", "None": "ENoneV", "value": "EValue", "factory": "EFactory"}
+    body = "; ".join(f"({field_key(r)}, {{| r_opt := {lib.coq_bool(r['opt_hint'])}; r_notreq := {lib.coq_bool(r['notreq'])}; r_eff := {EFF[r['eff']]} |}})" for r in rows)
+    lib.write_gen("FieldTable", "(* GENERATED on every run: every member-level flag vector rendered through the real field classes and templates. *)\nFrom DMCG Require Import FieldSem.\nOpen Scope N_scope.\n\nDefinition field_table : list (N * rend) := [" + body + "].\n")
+
+
 REFLECTORS = {
+    "FieldTable": r_field_table,
     "AtomicTables": r_atomic,
     "VersionTables": r_version,
     "PlumbingTables": r_plumbing,
